@@ -16,7 +16,7 @@ import os
 import random
 import re
 
-from vp import core, pipe, pipeprops, pipespec
+from vp import core, pipe, pipeprops, pipespec, shacldoc
 
 T = pipe.RDF_TYPE
 DEFAULT_NS = pipe.DEFAULT_SHAPES_NS
@@ -45,6 +45,8 @@ def _impl_other(ts, cfg, kind, timeout=10.0):
                                          "target_classes": None})
     if kind == "shexc_ttl":           # Turtle input parsed by rdflib (its prefixes are adopted): oracle-only
         return pipe.impl_shexc(ts, cfg, doc=cfg["_doc"], timeout=timeout, extra_kw={"input_format": "turtle"})
+    if kind == "shacl_shapes":        # a synthetic shape list through ShaclSerializer itself (vp/shacldoc.py)
+        return shacldoc.impl_shapes(cfg["_spec"])
     return _orig_impl_other(ts, cfg, kind, timeout)
 
 
@@ -262,6 +264,12 @@ def gen_cases(tier, rnd):
             sc["allow_redundant_or"] = False
             runs.append((ts, sc, "shacl"))
         cases.append({"runs": runs, "meta": {"i": i, "stream": stream}})
+    # serialiser level: synthetic shape lists (faults, detect_minimal_iri) against Model.ShaclDoc.shacl_graph_gen
+    grid = shacldoc.grid_specs(random.Random(rnd.getrandbits(48)), 4000 if tier == "thorough" else 400)
+    for k, spec in enumerate(grid):
+        gc = pipe.base_cfg()
+        gc["_spec"] = spec
+        cases[(k * 2) % len(cases)]["runs"].append(([], gc, "shacl_shapes"))
     return cases
 
 
@@ -277,34 +285,16 @@ def recognise(text):
     return (out[1], int(out[2]), out[3])
 
 
-def check_shacl(text):
-    """-> list of failure descriptions (kind, text)"""
-    import rdflib
-    from rdflib.namespace import RDF
-    SH = rdflib.Namespace("http://www.w3.org/ns/shacl#")
-    g = rdflib.Graph()
-    try:
-        g.parse(data=text, format="turtle")
-    except Exception as e:  # noqa: BLE001
-        return [("parse", "SHACL output does not parse as Turtle: %s" % str(e)[:200])], 1
-    fails = []
-    n = 0
-    for s, o in g.subject_objects(SH.node):
-        n += 1
-        if (o, RDF.type, SH.NodeShape) not in g:
-            fails.append(("node", "sh:node object %s is not a declared sh:NodeShape" % o))
-    pshapes = set(g.subjects(RDF.type, SH.PropertyShape))
-    for ns_ in g.subjects(RDF.type, SH.NodeShape):
-        pshapes |= set(g.objects(ns_, SH.property))
-    for ps in pshapes:
-        n += 1
-        direct = list(g.objects(ps, SH.path))
-        nested = [x for x in g.objects(ps, SH.property)]
-        inv = [p for x in nested for p in g.objects(x, SH.inversePath)]
-        ok = (len(direct) == 1 and not nested) or (not direct and len(nested) == 1 and len(inv) == 1)
-        if not ok:
-            fails.append(("path", "property shape with %d sh:path and %d nested inverse paths" % (len(direct), len(inv))))
-    return fails, n
+def check_shacl(text, ts=None, cfg=None):
+    """S1-S3 of Spec/ShaclGraphSpec.v on the REAL document (rdflib): every sh:node object is a declared
+    sh:NodeShape; every property shape has exactly one path in the accepted encoding; the node shapes are IRIs,
+    each typed once with exactly one sh:targetClass, a class of the input whose label it is.
+    -> (list of (check, description), number of checked items)"""
+    classes, label_of = None, None
+    if ts is not None:
+        classes = class_iris(ts, cfg)
+        label_of = lambda c: cfg["shapes_ns"] + pipespec.local_name(c)   # noqa: E731
+    return shacldoc.oracle(text, classes, label_of)
 
 
 def root_cause(check, ts, cfg):
@@ -339,9 +329,12 @@ class Spec(pipeprops.PropSpec):
     pid = "C05"
     theorems = ("C05_prefix_map_functional, C05_prefix_fallback_iff, C05_prefix_overwrite, C05_tokens_declared, "
                 "C05_tokens_local_clean, C05_tokens_pname, C05_lines_recognised, C05_document_recognised, "
-                "C05_closed_text, C05_wellformed_closed_partial (Props/C05.v)")
+                "C05_closed_text, C05_wellformed_closed_partial; SHACL half: C05_shacl_node_objects_declared, "
+                "C05_shacl_one_path, C05_shacl_node_shapes_iff, C05_shacl_one_node_shape_per_shape, C05_shacl_any_detect, "
+                "C05_shacl_graph_total, C05_shacl_wellformed, C05_run_refs_closed, C05_shacl_run (Props/C05.v)")
     projection = staticmethod(pipeprops.proj_text)
-    projection_name = "ShExC text, byte for byte (after the ratio shim)"
+    projection_name = ("ShExC text, byte for byte (after the ratio shim); SHACL runs: the parsed document is isomorphic "
+                       "to the abstract graph of Model.ShaclDoc (entries shacl_doc / shacl_doc_shapes)")
     rule = ("C01's graphs (general and schema-consistent, one or two namespaces) x all 2^6 switch assignments "
             "round-robin x thresholds on every k/n boundary x targets/all-classes x caps x remove_empty on/off x OR "
             "on/off x user dictionaries colliding with 0-3 of the default shape prefixes ('', weso-s, shapes, w-shapes) "
@@ -350,13 +343,25 @@ class Spec(pipeprops.PropSpec):
             "labels ending in sinks (length 2-4, branching, cycles, class-typed nodes; oracle only), Turtle input whose parsed "
             "prefixes are adopted (oracle only; finding when it declares a default shape prefix), custom "
             "shapes_namespace (finding), two classes sharing a local name (finding), local names with dots/dashes/"
-            "leading digits; every second case also SHACL; distinct = distinct (document, configuration); "
+            "leading digits; every second case also SHACL (oracle S1-S3 + isomorphism with the model's abstract graph); "
+            "400 (thorough 4 000) synthetic shape lists through ShaclSerializer itself (ill-formed labels / references, "
+            "non-http(s) predicates and class values, detect_minimal_iri with present / None / missing patterns); "
+            "distinct = distinct (document, configuration); "
             "non-trivial = some class with >= 2 instances and some non-typing triple")
     assumptions = ["the ShExC oracle is the Coq recogniser of Spec/ShexcGrammar.v (a subset of the ShEx 2.1 compact "
                    "grammar: it rejects more than the grammar, never less), extracted to OCaml",
                    "ShExC keywords are case-insensitive (ShEx 2.1 grammar): 'BNode' is read as BNODE",
                    "SHACL: an inverse constraint encoded as a property shape without sh:path and exactly one nested "
-                   "sh:property [sh:inversePath p] counts as one path (the encoding the golden files pin)"]
+                   "sh:property [sh:inversePath p] counts as one path (the encoding the golden files pin)",
+                   "SHACL half: the oracle checks S1-S3 of Spec/ShaclGraphSpec.v on the REAL document (rdflib); the same "
+                   "three statements are theorems about Model.ShaclDoc.shacl_graph (C05_shacl_node_objects_declared, "
+                   "C05_shacl_one_path, C05_shacl_one_node_shape_per_shape; end to end C05_shacl_run), and every real SHACL "
+                   "document of this run (Shaper level and ShaclSerializer level, faults and detect_minimal_iri included) "
+                   "is compared with that graph by rdflib.compare.isomorphic (coverage: other_model_correspondence)",
+                   "rdflib's Turtle writer and parser are trusted to round-trip the triples of the serialiser's graph; "
+                   "rdflib 6.0.2 prints rdf:type in object position without declaring the rdf: prefix when the document "
+                   "has no other rdf: term (reached only at the ShaclSerializer level with an instantiation property "
+                   "other than rdf:type): those documents are parsed after declaring the prefix and counted apart"]
     golden_note = ""
 
     def gen_cases(self, tier, rnd):
@@ -391,11 +396,48 @@ class Spec(pipeprops.PropSpec):
                     if why:
                         fails.append((None, why))
             elif kind == "shacl":
-                fl, k = check_shacl(res[1])
+                fl, k = check_shacl(res[1], ts, cfg)
                 n += k
                 for what, desc in fl:
                     fails.append((root_cause(what, ts, cfg), desc))
+            elif kind == "shacl_shapes":
+                # synthetic lists have dangling references and repeated labels on purpose: only S2 is judged
+                fl, k = shacldoc.oracle(res[1] if not shacldoc.UNDECLARED_RDF(res[1]) else
+                                        "@prefix rdf: <%s> .\n" % shacldoc.RDFNS + res[1])
+                n += k
+                for what, desc in fl:
+                    if what in ("path", "parse"):
+                        fails.append((None, "serialiser level: " + desc))
         return fails, n
+
+    def model_other(self, ts, cfg, kind, impl):
+        """the SHACL document model: real document isomorphic (rdflib) to Model.ShaclDoc's abstract graph"""
+        if kind == "shacl":
+            r = shacldoc.compare_run(ts, cfg, impl)
+        elif kind == "shacl_shapes":
+            m = shacldoc.model_doc(shacldoc.table_of_shapes(cfg["_spec"]), "shacl_doc_shapes")
+            r = shacldoc.compare_outcomes(m, impl)
+        else:
+            return ("n/a", ""), True
+        if r["agree"] and r["kind"].startswith("isomorphic") and kind == "shacl":
+            fl = r["flags"]
+            # the theorems, evaluated on the model's own graph: S2 always; S1 whenever the references resolve
+            if not fl["S2"] or (fl["refs_closed"] and not fl["S1"]):
+                return ("shacl-model", "model graph violates its own theorem: %r" % fl), False
+        return ("shacl-model", r["kind"] if r["agree"] else "%s: %s" % (r["kind"], r["detail"])), r["agree"]
+
+    def extra_vm_cases(self, cases, mb, rnd, tier):
+        out = []
+        want = 16 if tier == "thorough" else 6
+        for c in cases:
+            for rn in c["runs"]:
+                if len(rn) > 2 and rn[2] == "shacl" and len([x for x in out if x[0] == "shacl_doc"]) < want:
+                    t = pipe.model_table(rn[0], rn[1])
+                    out.append(("shacl_doc", t, mb.call("shacl_doc", t)))
+                if len(rn) > 2 and rn[2] == "shacl_shapes" and len([x for x in out if x[0] == "shacl_doc_shapes"]) < want:
+                    t = shacldoc.table_of_shapes(rn[1]["_spec"])
+                    out.append(("shacl_doc_shapes", t, mb.call("shacl_doc_shapes", t)))
+        return out
 
     def domain_note(self):
         return ("C05_dom: default shapes_namespace, class IRIs with pairwise distinct shape labels, user dictionary "
